@@ -6,7 +6,9 @@
 EXTENDS Integers, Sequences, FiniteSets, TLC, Json
 Kinds == {"range", "le", "ge", "eq"}
 RowSeqs == UNION {[1..n -> Kinds] : n \in 2..4}
-Extras == {"none", "abs", "logic", "abs+logic"}
+Extras == {"none", "abs", "logic", "abs+logic",
+           "fixmaxc"}      \* a variable fixed by its bounds at 3 and the constant 3 as an operand of max(): the converter
+                           \* makes a column for the constant - which must not be the user's fixed variable
 RangeModes == {"native", "slack", "linear"}
 Transfers == {"sol", "sol+basis", "iis", "inputs", "all"}
 VARIABLES rows, extra, rmode, tr
